@@ -51,7 +51,7 @@ Ve == 101  VE == 69   Vf == 102  VF == 70  Vg == 103  VG == 71
 (*  ret  obj: what String/Error/GoString/SafeMessage return: bytes, or     *)
 (*       pan = <<payload>> if the method panics instead                    *)
 (***************************************************************************)
-Caps == {"SF", "SM", "SV", "ER", "FM", "GS", "ST", "REG", "NILP"}
+Caps == {"SF", "SM", "SV", "ER", "FM", "GS", "ST", "REG", "NILP", "U8"}     \* U8: the named type is uint8-kinded
 
 T0 == [k |-> "nil", id |-> 0, n |-> 0, b |-> <<>>, xs |-> <<>>, ro |-> <<>>, caps |-> {},
        scr |-> <<>>, fscr |-> <<>>, pan |-> <<>>]
@@ -72,6 +72,9 @@ TPtrTo(id, x)   == [T0 EXCEPT !.k = "ptrto", !.id = id, !.xs = <<x>>]
 TNilPtr(id)     == [T0 EXCEPT !.k = "nilptr", !.id = id]
 TRValue(id, x)  == [T0 EXCEPT !.k = "rvalue", !.id = id, !.xs = <<x>>]       \* reflect.ValueOf(x) passed as an operand
 TInvalidRV(id)  == [T0 EXCEPT !.k = "invalidrv", !.id = id]                  \* reflect.Value{}
+\* statically typed containers ([]T, map[K]V with concrete T, K, V): elements are not interface-kind values
+TTSlice(id, xs) == [T0 EXCEPT !.k = "tslice", !.id = id, !.xs = xs]
+TTMap(id, kvs)  == [T0 EXCEPT !.k = "tmap", !.id = id, !.xs = kvs]
 \* an object: named int type (value n) with the methods in caps
 TObj(id, caps, scr, fscr, ret, pan) ==
   [T0 EXCEPT !.k = "obj", !.id = id, !.n = id, !.caps = caps, !.scr = scr, !.fscr = fscr, !.b = ret, !.pan = pan]
@@ -81,6 +84,8 @@ SOp(o, b, n, f, ts) == [o |-> o, b |-> b, n |-> n, f |-> f, ts |-> ts]
 SSafeString(b)   == SOp("SafeString", b, 0, <<>>, <<>>)
 SUnsafeString(b) == SOp("UnsafeString", b, 0, <<>>, <<>>)
 SSafeInt(id, n)  == SOp("SafeInt", <<>>, n, <<>>, <<TInt(id, n)>>)
+SSafeUint(id, n) == SOp("SafeUint", <<>>, n, <<>>, <<TUint(id, n)>>)       \* n < 0 stands for 2^64 + n (TLC integers are 32 bit)
+SSafeFloat(id)   == SOp("SafeFloat", <<>>, 0, <<>>, <<TFloat(id)>>)
 SSafeRune(n)     == SOp("SafeRune", <<>>, n, <<>>, <<>>)
 SUnsafeRune(n)   == SOp("UnsafeRune", <<>>, n, <<>>, <<>>)
 SSafeByte(n)     == SOp("SafeByte", <<>>, n, <<>>, <<>>)
@@ -160,7 +165,7 @@ IsGoStringer(t)    == HasCap(t, "GS")
 IsStringer(t)      == HasCap(t, "ST")
 IsNilRecv(t)       == HasCap(t, "NILP")        \* a typed nil pointer whose methods dereference it
 IsStringKind(t)    == t.k \in {"string", "rstring"}
-IsPtrKind(t)       == t.k \in {"ptrto", "nilptr", "map", "slice"} \/ IsNilRecv(t)
+IsPtrKind(t)       == t.k \in {"ptrto", "nilptr", "map", "slice", "tslice", "tmap"} \/ IsNilRecv(t)
 
 ---------------------------------------------------------------------------
 RECURSIVE PrintArg(_, _, _), PrintArg2(_, _, _), PrintValue(_, _, _, _, _), PrintElem(_, _, _, _, _), PrintChecked(_, _, _, _, _),
@@ -168,6 +173,7 @@ RECURSIVE PrintArg(_, _, _), PrintArg2(_, _, _), PrintValue(_, _, _, _, _), Prin
           RunScript(_, _, _, _), RunOp(_, _, _, _), PPPrint(_, _), PPPrintf(_, _, _),
           DoPrint(_, _), DoPrintArgs(_, _, _, _), DoPrintf(_, _, _), DoItems(_, _, _), DoExtra(_, _, _),
           FmtInteger(_, _, _, _), FmtString(_, _, _, _, _), PrintSeq(_, _, _, _, _, _, _),
+          PrintTSeq(_, _, _, _, _, _, _), PrintTMap(_, _, _, _, _, _),
           PrintMap(_, _, _, _, _, _), PrintFields(_, _, _, _, _, _), FmtPointer(_, _, _), FmtBytes(_, _, _)
 
 \* ---- leaf formatters (print.go:359-570): valid verb -> one unsafe bracket, else badVerb
@@ -320,6 +326,10 @@ RunOp(ps, op, verb, a) ==
        \* SafeInt/SafeUint/SafeFloat go through fmtInteger/fmtFloat: flags of the enclosing directive apply
        [] op.o = "SafeInt"      -> safely(LAMBDA s : LET mm == s.bs.mode oo == s.ov IN
                                              Restore(Rend(StartUnsafe(s), "val", op.ts[1], VD, 0), mm, oo))
+       [] op.o = "SafeUint"     -> safely(LAMBDA s : LET mm == s.bs.mode oo == s.ov IN
+                                             Restore(Rend(StartUnsafe(s), "val", op.ts[1], VD, 0), mm, oo))
+       [] op.o = "SafeFloat"    -> safely(LAMBDA s : LET mm == s.bs.mode oo == s.ov IN
+                                             Restore(Rend(StartUnsafe(s), "val", op.ts[1], VV, 0), mm, oo))
        [] op.o = "UnsafeString" -> unsafely(LAMBDA s : W(s, op.b))
        [] op.o = "UnsafeBytes"  -> unsafely(LAMBDA s : W(s, op.b))
        [] op.o = "UnsafeRune"   -> unsafely(LAMBDA s : WRune(s, op.n))
@@ -429,7 +439,8 @@ PrintKind(ps0, v, verb, depth, ro) ==
   LET ps == CurValue(ps0, v) IN
   CASE v.k = "bool"   -> FmtBool(ps, v, verb)
     [] v.k = "int"    -> FmtInteger(ps, v, TRUE, verb)
-    [] v.k = "obj"    -> IF IsNilRecv(v) THEN FmtPointer(ps, v, verb) ELSE FmtInteger(ps, v, TRUE, verb)   \* named int
+    [] v.k = "obj"    -> IF IsNilRecv(v) THEN FmtPointer(ps, v, verb)
+                         ELSE FmtInteger(ps, v, "U8" \notin v.caps, verb)                                   \* named int / named uint8
     [] v.k = "uint"   -> FmtInteger(ps, v, FALSE, verb)
     [] v.k = "float"  -> FmtFloat(ps, v, verb)
     [] v.k = "string" -> FmtString(ps, v.b, "val", v, verb)
@@ -440,6 +451,16 @@ PrintKind(ps0, v, verb, depth, ro) ==
     [] v.k = "slice"  -> IF ps.fl.sharpV
                          THEN W(PrintSeq(W(Rend(ps, "typename", v, VS, 0), <<123>>), v.xs, verb, depth, ro, CommaSpace, 1), <<125>>)
                          ELSE W(PrintSeq(W(ps, <<91>>), v.xs, verb, depth, ro, <<SP>>, 1), <<93>>)
+    \* []T with a concrete T: the elements go straight to printValue (depth+1); a uint8-kinded T with
+    \* s q x X is a byte string (fmtBytes) whatever methods T has
+    [] v.k = "tslice" -> IF verb \in {VS, VQ, VX, VXX} /\ Len(v.xs) > 0 /\ v.xs[1].k = "obj" /\ "U8" \in v.xs[1].caps
+                         THEN UnsafeRend(ps, "val", v, verb)
+                         ELSE IF ps.fl.sharpV
+                         THEN W(PrintTSeq(W(Rend(ps, "typename", v, VS, 0), <<123>>), v.xs, verb, depth, ro, CommaSpace, 1), <<125>>)
+                         ELSE W(PrintTSeq(W(ps, <<91>>), v.xs, verb, depth, ro, <<SP>>, 1), <<93>>)
+    [] v.k = "tmap"   -> IF ps.fl.sharpV
+                         THEN W(PrintTMap(W(Rend(ps, "typename", v, VS, 0), <<123>>), v.xs, verb, depth, ro, 1), <<125>>)
+                         ELSE W(PrintTMap(W(ps, MapOpen), v.xs, verb, depth, ro, 1), <<93>>)
     [] v.k = "map"    -> IF ps.fl.sharpV
                          THEN W(PrintMap(W(Rend(ps, "typename", v, VS, 0), <<123>>), v.xs, verb, depth, ro, 1), <<125>>)
                          ELSE W(PrintMap(W(ps, MapOpen), v.xs, verb, depth, ro, 1), <<93>>)
@@ -450,7 +471,7 @@ PrintKind(ps0, v, verb, depth, ro) ==
                          LET a == IF ps.fl.sharpV THEN Rend(ps, "typename", v, VS, 0) ELSE ps
                              sv == [v EXCEPT !.k = "struct", !.ro = <<TRUE>>]
                          IN W(PrintFields(W(a, <<123>>), sv, verb, depth, ro, 1), <<125>>)
-    [] v.k = "ptrto"  -> IF depth = 0 /\ v.xs[1].k \in {"slice", "struct", "map"} THEN PrintValue(W(ps, <<38>>), v.xs[1], verb, depth + 1, ro)
+    [] v.k = "ptrto"  -> IF depth = 0 /\ v.xs[1].k \in {"slice", "struct", "map", "tslice", "tmap"} THEN PrintValue(W(ps, <<38>>), v.xs[1], verb, depth + 1, ro)
                          ELSE FmtPointer(ps, v, verb)
     [] v.k = "nilptr" -> FmtPointer(ps, v, verb)
     [] OTHER          -> ps
@@ -458,6 +479,16 @@ PrintKind(ps0, v, verb, depth, ro) ==
 PrintSeq(ps, xs, verb, depth, ro, sep, i) ==
   IF i > Len(xs) \/ Exc(ps) THEN ps
   ELSE PrintSeq(PrintElem(IF i > 1 THEN W(ps, sep) ELSE ps, xs[i], verb, depth + 1, ro), xs, verb, depth, ro, sep, i + 1)
+
+PrintTSeq(ps, xs, verb, depth, ro, sep, i) ==
+  IF i > Len(xs) \/ Exc(ps) THEN ps
+  ELSE PrintTSeq(PrintValue(IF i > 1 THEN W(ps, sep) ELSE ps, xs[i], verb, depth + 1, ro), xs, verb, depth, ro, sep, i + 1)
+
+PrintTMap(ps, kvs, verb, depth, ro, i) ==
+  IF 2 * i > Len(kvs) \/ Exc(ps) THEN ps
+  ELSE LET a == IF i > 1 THEN W(ps, IF ps.fl.sharpV THEN CommaSpace ELSE <<SP>>) ELSE ps
+           b == W(PrintValue(a, kvs[2 * i - 1], verb, depth + 1, ro), <<58>>)
+       IN PrintTMap(PrintValue(b, kvs[2 * i], verb, depth + 1, ro), kvs, verb, depth, ro, i + 1)
 
 PrintMap(ps, kvs, verb, depth, ro, i) ==      \* kvs = k1, v1, k2, v2, .. in fmtsort order
   IF 2 * i > Len(kvs) \/ Exc(ps) THEN ps
@@ -528,7 +559,8 @@ SBOp(ps, op) ==
     [] op.o = "SafeRune"                          -> WRune(SetMode(ps, MS), op.n)
     [] op.o = "SafeByte"                          -> WByte(SetMode(ps, MS), op.n)
     \* SafeInt: SetMode(SafeEscaped); Fprintf(&b.Buffer, "%d", s) -- the digits, written in safe mode
-    [] op.o = "SafeInt"                           -> Rend([SetMode(ps, MS) EXCEPT !.fl = NoFlags], "val", op.ts[1], VD, 0)
+    [] op.o \in {"SafeInt", "SafeUint"}            -> Rend([SetMode(ps, MS) EXCEPT !.fl = NoFlags], "val", op.ts[1], VD, 0)
+    [] op.o = "SafeFloat"                         -> Rend([SetMode(ps, MS) EXCEPT !.fl = NoFlags], "val", op.ts[1], VV, 0)
     [] op.o \in {"UnsafeString", "UnsafeBytes", "Write"} -> W(SetMode(ps, MU), op.b)
     [] op.o = "UnsafeRune"                        -> WRune(SetMode(ps, MU), op.n)
     [] op.o = "UnsafeByte"                        -> WByte(SetMode(ps, MU), op.n)
